@@ -1,4 +1,5 @@
 import GBS.Model.AtomGen
+import GBS.Lemmas.AtomGenInv
 /-!
 # C18 — atom-graph generation (`graph_generate.py`)
 
@@ -11,7 +12,14 @@ The state machine `atomGenerate` is compared with `AtomGraph.generate()` on reco
   bond of that atom is picked) contain only edges of the stochastic atom graph that leave its stochastic node and are of the
   respective kind; an atom created as the *target* of such a bond carries none (it cannot react again: no ring, no double use);
 * `C18_pick_in_range`: a pick outside the option list is rejected (`badOracle`), never defaulted.
-`C18_partial`: whole residues, the tree shape and termination (bounded number of oracle events) are **not** theorems here; the
+* `C18_bonds_follow_graph` (invariant by induction over all three nested loops, for every oracle and fuel): every bond of a
+  generated molecule joins two generated atoms and carries either the bond type of the static edge between their stochastic
+  nodes (a bond inside a residue, copied by `_fill_static_edges`) or the bond type of a non-static edge of the stochastic atom
+  graph between their stochastic nodes (a bond between residues); `C18_edge_lists` : every edge list an atom of the result still
+  carries consists of graph edges leaving its stochastic node.  Side condition `fillClosed g` (the depth-first search of a residue
+  is closed under static adjacency, i.e. its fuel suffices): executable, evaluated by the driver for every graph of the
+  correspondence run and required to be `true` there.
+`C18_partial`: that residues are *whole*, the tree shape and termination (bounded number of oracle events) are **not** theorems here; the
 oracle checks them on every generated graph (whole residues along consecutive node ids, every inter-residue bond along a
 non-static graph edge of the same order, tree, `to_mol()` sanitises and is connected, equal seeds ⇒ equal graphs).
 -/
@@ -64,5 +72,50 @@ theorem C18_available_edges (g : SAG) (s : AG) (node : Nat) (tr te st : Bool) :
 theorem C18_pick_in_range (ws : List Rat) (v : Nat) (ω : Oracle) (h : ¬ v < ws.length) :
     pickIdx ws (.pick v :: ω) = .error .badOracle := by
   simp [pickIdx, h]
+
+/-- **C18 (bonds follow the graph)** -/
+theorem C18_bonds_follow_graph (g : SAG) (hcl : fillClosed g = true) (fuel : Nat) (ω : Oracle) (r : AG) (t : Trace) (ω' : Oracle)
+    (h : atomGenerate g fuel ω = .ok (r, t, ω')) (a b bond : Nat) (he : (a, b, bond) ∈ r.edges) :
+    ∃ u v, (r.nodes.map (·.stoch))[a]? = some u ∧ (r.nodes.map (·.stoch))[b]? = some v ∧
+      (bond = staticBond g u v ∨
+       (∃ ge ∈ g.edges, ((ge.src = u ∧ ge.dst = v) ∨ (ge.src = v ∧ ge.dst = u)) ∧ ge.bond = bond ∧
+          (ge.stochastic ≠ 0 ∨ ge.termination ≠ 0 ∨ ge.transition ≠ 0))) := by
+  have hi := atomGenerate_inv g (fillClosed_all g hcl) fuel ω r t ω' h
+  obtain ⟨u, v, h1, h2, h3⟩ := hi.edges _ he
+  refine ⟨u, v, h1, h2, ?_⟩
+  rcases h3 with h3 | ⟨ge, hg, hs, hd, hb, hk⟩ | ⟨ge, hg, hs, hd, hb, hk⟩
+  · exact Or.inl h3
+  · exact Or.inr ⟨ge, hg, Or.inl ⟨hs, hd⟩, hb, hk⟩
+  · exact Or.inr ⟨ge, hg, Or.inr ⟨hs, hd⟩, hb, hk⟩
+
+/-- **C18 (edge lists)**: what an atom of the result may still react along are graph edges leaving its stochastic node -/
+theorem C18_edge_lists (g : SAG) (hcl : fillClosed g = true) (fuel : Nat) (ω : Oracle) (r : AG) (t : Trace) (ω' : Oracle)
+    (h : atomGenerate g fuel ω = .ok (r, t, ω')) (n : GNode) (hn : n ∈ r.nodes) (e : AEdge) (he : e ∈ n.stochE ++ n.termE ++ n.transE) :
+    e ∈ g.edges ∧ e.src = n.stoch := by
+  have hi := atomGenerate_inv g (fillClosed_all g hcl) fuel ω r t ω' h
+  obtain ⟨h1, h2, h3⟩ := hi.nodes n hn
+  simp only [List.mem_append] at he
+  rcases he with (he | he) | he
+  · exact ⟨(h1 e he).1, (h1 e he).2.1⟩
+  · exact ⟨(h2 e he).1, (h2 e he).2.1⟩
+  · exact ⟨(h3 e he).1, (h3 e he).2.1⟩
+
+/-! non-vacuity: a concrete graph (`C{[>][<]CC[>];[<]C[]}`-like: prefix atom, two-atom repeat unit, one-atom end group) meets the side
+condition, and a concrete oracle generates a molecule whose bonds are the transition bond and the unit's static bond -/
+namespace C18Example
+def cAtom : AAtom := { z := 6, charge := 0, arom := false }
+def dL : Desc := { sym := .lt, id := none, order := .single, weight := 1, trans := none, atom := 0 }
+def dR : Desc := { sym := .gt, id := none, order := .single, weight := 1, trans := none, atom := 1 }
+def dNone : Desc := { sym := .none, id := none, order := .single, weight := 1, trans := none, atom := 0 }
+def tPre : AToken := { atoms := [cAtom], inner := [], mass := 12, bds := [{ dR with atom := 0 }] }
+def tRep : AToken := { atoms := [cAtom, cAtom], inner := [(0, 1, 1)], mass := 24, bds := [dL, dR] }
+def tEnd : AToken := { atoms := [cAtom], inner := [], mass := 12, bds := [dL] }
+def exG : SAG := stochAtomGraph [.tok tPre, .stoch { dR with atom := 0 } dNone [tRep] [tEnd] (some 100) (some 120)] true
+def exω : Oracle := [.pick 0, .pick 0, .pick 0, .draw 20, .pick 0]
+
+example : fillClosed exG = true := by decide +kernel
+example : (atomGenerate exG 30 exω).toOption.map (fun r => (r.1.edges, r.1.nodes.map (·.stoch), r.2.2)) =
+    some ([(0, 1, 1), (1, 2, 1)], [0, 1, 2], []) := by decide +kernel
+end C18Example
 
 end GBS
